@@ -580,9 +580,9 @@ public:
    /// Stores permutation of row indices in \p perm.
    void remove(const int nums[], int n, int* perm)
    {
-      SVSetBase<R>::remove(nums, n, perm);
-
       int j = num();
+
+      SVSetBase<R>::remove(nums, n, perm);
 
       for(int i = 0; i < j; ++i)
       {
